@@ -120,11 +120,12 @@ def analyse(mod, run, label):
         for rr in tm.rets():
             if rr.block.id not in live: continue
             v = rr.ops[0]
-            cands = [v]
+            cands = [(v, rr.block.id)]
             if v["k"] == "inst" and tm.imap[v["v"]].op == "phi" and tm.imap[v["v"]].block is rr.block:
-                cands = [inc["v"] for inc in tm.imap[v["v"]]["incoming"] if inc["b"] in live and (inc["b"], rr.block.id) not in dead]
-            for c in cands:
-                a = iv.ival(c); r = a if r is None else (min(r[0], a[0]), max(r[1], a[1]))
+                cands = [(inc["v"], inc["b"]) for inc in tm.imap[v["v"]]["incoming"] if inc["b"] in live and (inc["b"], rr.block.id) not in dead]
+            for c, at in cands:
+                # the value as refined by the branches that dominate the block it leaves from (the clamp may be an if/return)
+                a = iv.ival_at(c, tm.bmap[at])[0]; r = a if r is None else (min(r[0], a[0]), max(r[1], a[1]))
         run.check(r is not None and r[1] <= (1 << bits) - 1, "T2-rounded-mantissa-fits-field", {"to_bits": bits, "result_range": [r[0], r[1]] if r else None},
                   Finding("T2-rounding-carry-lost", "truncateMantissa", "%d-bit" % bits, "range", "truncateMantissa(m, 53, %d) ranges over [%s, %s] for a normal mantissa; the field keeps %d bits (max %d): a mantissa that rounds up to 2^%d is stored as 0 and decodes as a different number" % (
                       bits, r and r[0], r and r[1], bits, (1 << bits) - 1, bits), loc="src/varintFloat.c", quant=str(bits)))
@@ -163,22 +164,20 @@ def analyse(mod, run, label):
     asm = [b for b in comp.blocks if any(i.op == "shl" and i.ops[1]["k"] == "int" and int(i.ops[1]["v"]) == 52 and i.ops[0]["k"] == "inst" for i in b.insts)]
     if len(asm) != 1: raise AnalysisBroken("varintFloatCompose: the block that shifts the biased exponent into place was not found")
     A = asm[0]
-    rets = comp.rets()
-    retphi = comp.imap[rets[0].ops[0]["v"]] if len(rets) == 1 and rets[0].ops[0]["k"] == "inst" and comp.imap[rets[0].ops[0]["v"]].op == "phi" else None
-    if retphi is None: raise AnalysisBroken("varintFloatCompose: single return phi expected")
     comp.dom()
     def other_returns(lo, hi):
-        """incoming blocks of the return phi, other than the assembling path, reachable for exponents in [lo, hi] (signed) and a non-zero mantissa"""
+        """can a return be reached without passing the assembling block, for exponents in [lo, hi] (signed) and a non-zero mantissa?"""
         iv = Intervals(comp, {mk: 1}, None)
         iv.arg_ranges = {ek: (lo, hi) if lo >= 0 else (lo + (1 << ebits), hi + (1 << ebits))}
-        dead = iv.dead_edges(); seen = set(); work = [comp.entry]
+        dead = iv.dead_edges(); seen = set(); work = [comp.entry]; hit = False
         while work:
             b = work.pop()
-            if b.id in seen: continue
+            if b.id in seen or b.id == A.id: continue
             seen.add(b.id)
+            if b.term.op == "ret": hit = True; break
             for sx in b.succs:
                 if (b.id, sx.id) not in dead: work.append(sx)
-        return [inc["b"] for inc in retphi["incoming"] if inc["b"] in seen and (inc["b"], retphi.block.id) not in dead and not comp.dominates(A.id, inc["b"])]
+        return [1] if hit else []
     def lost(lo, hi, depth=0):
         o = other_returns(lo, hi)
         if not o: return []
